@@ -88,6 +88,12 @@ def scatterN {α : Type} (tbl : List α) (κ : Nat → Nat) (ν : Nat → α) : 
   | 0 => tbl
   | n + 1 => setAt (scatterN tbl κ ν n) (κ n) (ν n)
 
+/-- `tbl[κ i] += ν i` for `i = 0 … n-1` in this order (slice `+=` over an index array; COO → CSC assembly, where repeated
+keys are summed) -/
+def accumN (tbl : List Rat) (κ : Nat → Nat) (ν : Nat → Rat) : Nat → List Rat
+  | 0 => tbl
+  | n + 1 => setAt (accumN tbl κ ν n) (κ n) ((accumN tbl κ ν n).getD (κ n) 0 + ν n)
+
 /-- `np.ravel(cell_index[:-1 along a], "F")[k]` -/
 def loCellOf (shape : List Nat) (a k : Nat) : Nat := encF shape (decF (fshape shape a) k)
 
@@ -110,6 +116,19 @@ def revTable (shape : List Nat) (a side : Nat) : List Int :=
   scatterN (List.replicate (numCells shape) (-1 : Int))
     (fun k => if side = 0 then hiCellOf shape a k else loCellOf shape a k)
     (fun k => ((offset shape a + k : Nat) : Int)) (nfa shape a)
+
+/-- which constructor calls `Grid(shape, voxel_size)` the code accepts (`h` = the per-axis list after the scalar /
+list normalisation): `face_vol` indexes `voxel_size[np.delete(arange(dim), d)]` (IndexError if too short in ≥ 2-D),
+then `assert len(voxel_size) == dim`; dimensions other than 1–3 raise `NotImplementedError`
+(the `else` branch of the interior-face slicing); an extent 0 makes a face count negative and `np.arange` / `np.zeros`
+raise `ValueError`.  All theorems about the tables are stated for the model on every shape; the code only ever
+builds the tables for shapes passing this guard. -/
+def gridGuard (shape : List Nat) (h : List Rat) : Except Err Unit :=
+  if h.length < shape.length ∧ 2 ≤ shape.length then .error .index  -- `face_vol` indexes `voxel_size` first
+  else if h.length ≠ shape.length then .error .assertion
+  else if shape.length = 0 ∨ 3 < shape.length then .error .notImpl
+  else if shape.any (fun n => n == 0) then .error .value
+  else .ok ()
 
 /-- the axes along which `interior_faces[a]` is sliced `1:-1` (code as it is: in 1-D along the normal axis
 itself, in 2-D/3-D along all tangential axes) -/
